@@ -21,6 +21,62 @@ SigDigits(num, f) ==
     IN  IF z > n THEN [d |-> << >>, n |-> 0, k |-> 0, total |-> n]
         ELSE [d |-> SubSeq(md, z, l), n |-> l - z + 1, k |-> ev - Len(num.frac) + (n - l), total |-> n - z + 1]
 
+(***************************************************************************)
+(* The writer's option pipeline, as far as the properties constrain it.     *)
+(* A written number is read back with the grammar (Scan) and described by   *)
+(*   lay = [d, n, total, se, hasExp, hasPoint, fracAllZero, nfrac]          *)
+(* d: significant digits without leading / trailing zeros, n = Len(d);      *)
+(* total: digits written from the first non-zero one to the end (padding    *)
+(* zeros included); se: exponent of the leading significant digit (the      *)
+(* "scientific exponent", in digits of the mantissa radix).                 *)
+(***************************************************************************)
+RECURSIVE AllZero(_, _, _)
+AllZero(d, i, n) == IF i > n THEN TRUE ELSE IF d[i] # 0 THEN FALSE ELSE AllZero(d, i + 1, n)
+
+Layout(num, f) ==
+    LET md == num.int \o num.frac
+        n  == Len(md)
+        z  == FirstNonZero(md, 1, n)
+        l  == LastNonZero(md, n)
+        ea == ExpValue(num.exp, ExponentRadix(f), 1, 0)
+        ev == IF num.esign = 2 THEN 0 - ea ELSE ea
+    IN  [d |-> IF z > n THEN << >> ELSE SubSeq(md, z, l),
+         n |-> IF z > n THEN 0 ELSE l - z + 1,
+         total |-> IF z > n THEN n ELSE n - z + 1,
+         se |-> (Len(num.int) - z) + ev,
+         ev |-> ev,
+         nint |-> Len(num.int), nfrac |-> Len(num.frac),
+         fracAllZero |-> AllZero(num.frac, 1, Len(num.frac))]
+
+(* compare the dropped digits t[from..n] with one half (radix r); -1, 0, 1 *)
+RECURSIVE CmpHalfFrom(_, _, _, _, _)
+CmpHalfFrom(t, i, n, r, first) ==
+    IF r % 2 = 0 THEN
+        (IF i > n THEN (IF first THEN -1 ELSE 0)
+         ELSE IF first THEN (IF t[i] * 2 > r THEN 1 ELSE IF t[i] * 2 < r THEN -1 ELSE CmpHalfFrom(t, i + 1, n, r, FALSE))
+         ELSE IF t[i] # 0 THEN 1 ELSE CmpHalfFrom(t, i + 1, n, r, FALSE))
+    ELSE \* odd radix: one half is (r-1)/2 repeated for ever; a finite string never equals it
+        (IF i > n THEN -1
+         ELSE IF t[i] * 2 > r - 1 THEN 1 ELSE IF t[i] * 2 < r - 1 THEN -1 ELSE CmpHalfFrom(t, i + 1, n, r, FALSE))
+
+(* add one unit in the last place of the digit tuple t (radix r); result [d, carried] *)
+RECURSIVE IncDigits(_, _, _)
+IncDigits(t, i, r) ==
+    IF i = 0 THEN [d |-> << 1 >> \o t, carried |-> TRUE]
+    ELSE IF t[i] + 1 < r THEN [d |-> [t EXCEPT ![i] = t[i] + 1], carried |-> FALSE]
+    ELSE IncDigits([t EXCEPT ![i] = 0], i - 1, r)
+
+(* round the digit tuple d (n digits, no leading zero) to m < n digits: [d, carried] *)
+RoundDigits(d, n, m, r, mode) ==
+    LET kept == SubSeq(d, 1, m)
+        c    == CmpHalfFrom(d, m + 1, n, r, TRUE)
+        up   == mode = "round" /\ (c > 0 \/ (c = 0 /\ d[m] % 2 = 1))
+    IN  IF ~up THEN [d |-> kept, carried |-> FALSE]
+        ELSE LET x == IncDigits(kept, m, r) IN
+             IF x.carried THEN [d |-> SubSeq(x.d, 1, m), carried |-> TRUE] ELSE x
+
+StripTrailing(t) == LET l == LastNonZero(t, Len(t)) IN IF l = 0 THEN << >> ELSE SubSeq(t, 1, l)
+
 DefaultNan == << 78, 97, 78 >>       \* "NaN"
 DefaultInf == << 105, 110, 102 >>    \* "inf"
 DefaultInfinity == << 105, 110, 102, 105, 110, 105, 116, 121 >>
